@@ -1,7 +1,7 @@
 (* Entry points of the executable model, by name. One dispatcher so that the OCaml driver and
    the in-Coq case files need no per-function glue. *)
 From Coq Require Import ZArith NArith List String Bool.
-From Sia Require Import Prim.Result Prim.Tok Currency.Model Merkle.Tree Merkle.Forest Merkle.Acc Merkle.Rhp Policy.Model Pow.Model Codec.Schema Codec.Shape Codec.Irregular Gen.Schemas Ledger.Types Ledger.Mid Ledger.Validate Ledger.Apply Hash.Ids Merkle.Multi Gateway.Outline Rhp4.Model Codec.Size Gen.Limits Codec.Framing Text.Hex Text.Currency.
+From Sia Require Import Prim.Result Prim.Tok Currency.Model Merkle.Tree Merkle.Forest Merkle.Acc Merkle.Rhp Policy.Model Pow.Model Codec.Schema Codec.Shape Codec.Irregular Gen.Schemas Ledger.Types Ledger.Mid Ledger.Validate Ledger.Apply Hash.Ids Merkle.Multi Gateway.Outline Rhp4.Model Codec.Size Gen.Limits Codec.Framing Text.Hex Text.Currency Text.PolicyText.
 Import ListNotations.
 Open Scope string_scope.
 Open Scope list_scope.
@@ -294,7 +294,18 @@ Section Dispatch.
     | "c20.addr_render", [TB a] => Some [TB (addr_render H a)]
     | "c20.cur_render", [TZ c] => Some [TB (cur_render (Z.to_N c))]
     | "c20.cur_exact", [TZ c] => Some [TB (digits (Z.to_N c))]
+    | "c20.pol_parse", [TB s] =>
+        Some (match parse_spend_policy s with
+              | TOk p => match render p with Some t => [TZ 0; TB t] | None => [TZ 3] end
+              | TErr => [TZ 1]
+              | TUn => [TZ 3]
+              end)
     | "c20.cur_parse", [TB s] => Some (match cur_parse s with POk v => [TZ 0; tN v] | PErr => [TZ 1] | PUnmodelled => [TZ 3] end)
+    | "c20.pol_render", _ :: _ =>
+        Some (match run_parser (p_policy (List.length args)) args with
+              | Some p => match render p with Some t => [TZ 0; TB t] | None => [TZ 3] end
+              | None => [TZ 4]
+              end)
     | _, _ => None
     end.
 
